@@ -260,10 +260,16 @@ impl Monitor for C03 {
         cfg.ncgroups = true;
         let mut weak = cfg.clone();
         weak.no_nullable_quant = false;
+        // parentheses and brackets as literals and class members (analyze re-scans the pattern text
+        // for its group-nesting table), with groups that may capture nothing
+        let mut meta = GenCfg::std(&['a', 'b', '(', ')', '[', ']', '\\', 'a', '(']);
+        meta.backrefs = false;
+        meta.props = false;
         for k in 0..n {
             let ast = match k % 8 {
                 7 => gen_many_groups(&mut rng),
                 6 => gen_pattern(&mut rng, &weak),
+                4 => gen_pattern(&mut rng, &meta),
                 _ => gen_pattern(&mut rng, &cfg),
             };
             if ast.count_groups() == 0 || (ast.nullable() && rng.chance(9, 10)) {
@@ -283,14 +289,15 @@ impl Monitor for C03 {
             }
             let fl = *rng.pick(&["", "", "i", "s"]);
             for _ in 0..3 {
-                let inp = gen_input(&mut rng, &ast, &['a', 'b', 'c', '\u{10400}', '\n'], 9);
+                let extra: &[char] = if k % 8 == 4 { &['a', 'b', '(', ')', '[', ']'] } else { &['a', 'b', 'c', '\u{10400}', '\n'] };
+                let inp = gen_input(&mut rng, &ast, extra, 9);
                 emit(Case::new(&ast, fl, &inp));
             }
         }
         J::obj().with("random_patterns_this_shard", J::u(n))
     }
     fn corpus(&self) -> Vec<Case> {
-        raw(&[("a(b?)c", "", "ac"), ("(a|b)*b", "", "ab"), ("(.)+b", "", "ab"), ("(a)|(b)", "", "ba"), ("((a)|(b))+c", "", "abc"), ("(a)(b)(c)(d)(e)(f)(g)(h)(i)(j)(k)", "", "abcdefghijk"), ("(a(b?))c", "", "ac")])
+        raw(&[("(?:.+)*?(?:|(b.))a.", "", "baa"), ("(?:.+){0,}?([a]||(b.))a.", "", "baa"), ("a(b?)c", "", "ac"), ("(a|b)*b", "", "ab"), ("(.)+b", "", "ab"), ("(a)|(b)", "", "ba"), ("((a)|(b))+c", "", "abc"), ("(a)(b)(c)(d)(e)(f)(g)(h)(i)(j)(k)", "", "abcdefghijk"), ("(a(b?))c", "", "ac")])
     }
 }
 
@@ -957,6 +964,11 @@ impl Monitor for C12 {
             }
             for _ in 0..2 {
                 let inp = gen_input(&mut rng, &ast, &['a', 'b', '\n', '\r'], 8);
+                emit(Case::new(&ast, fl, &inp));
+            }
+            if ast.has_dot() {
+                // characters that look like line ends but are not: the dot matches them with or without s
+                let inp: String = gen_input(&mut rng, &ast, &['a', '\u{b}', '\u{c}', '\u{85}', '\u{2028}', '\n'], 6).chars().map(|c| if c == 'b' && rng.chance(1, 2) { *rng.pick(&['\u{b}', '\u{c}', '\u{85}', '\u{2028}']) } else { c }).collect();
                 emit(Case::new(&ast, fl, &inp));
             }
         }
